@@ -56,7 +56,20 @@ func famC12(g *Gen, o *Out, n int, thorough bool) {
 					what = "version"
 				case 1:
 					if !ro.v1 {
-						ro.dp = ro.dp + 1 + uint64(g.pick(5))
+						switch g.pick(4) {
+						case 0: // a payload offset at or past the end of the existing file
+							ro.dp = uint64(len(st.fileBytes())) + uint64(g.pick(3)*40)
+						case 1:
+							ro.dp = []uint64{4096, 1413, 70000}[g.pick(3)] + ro.dp
+						case 2:
+							if ro.dp > 0 {
+								ro.dp = uint64(g.pick(int(ro.dp)))
+								break
+							}
+							fallthrough
+						default:
+							ro.dp = ro.dp + 1 + uint64(g.pick(5))
+						}
 						what = "padding"
 					}
 				case 2:
